@@ -269,6 +269,53 @@ class MapProbe(Probe):
         return MapProbe.log_likelihood(self, samples, map_fn=map_fn)
 
 
+def refused_entries(g, counters, viol, t, data, files):
+    """Contexts that cannot be set up (the documented ValueError: a callable without `map_fn`): whether the refusal comes when
+    the context object is built or when it is entered, the instance must be left as it was - also inside other contexts."""
+    from aspire import Aspire
+
+    xp = env.xp_of("numpy")
+    probe = MapProbe(t)
+
+    def plain_prior(samples):
+        return probe.log_prior(samples)
+
+    def plain_likelihood(samples):
+        return probe.log_likelihood(samples)
+
+    for outer in (None, "K", "P"):
+        for which in ("prior", "likelihood"):
+            a = Aspire(log_likelihood=probe.log_likelihood if which == "prior" else plain_likelihood, log_prior=plain_prior if which == "prior" else probe.log_prior,
+                       dims=1, parameters=list(t.parameters), prior_bounds=t.prior_bounds, flow_backend="avnp", xp=xp, family="gauss", loc=[0.5], scale=[2.0], fixed=True)
+            if which == "likelihood" and outer == "P":
+                continue  # the outer pool context itself needs a likelihood with map_fn
+            a.fit(data)
+            where = f"refused entry: {which} without map_fn, parallelize_prior={which == 'prior'}, outer context {outer}"
+            import contextlib
+
+            octx = contextlib.nullcontext() if outer is None else (a.auto_checkpoint(files["f1"], every=2) if outer == "K" else a.enable_pool(PoolDouble(), close_pool=False))
+            top = snapshot(a)
+            with octx:
+                entry = snapshot(a)
+                pool = PoolDouble()
+                refused = None
+                try:
+                    with a.enable_pool(pool, close_pool=True, parallelize_prior=(which == "prior")):
+                        pass
+                except ValueError as exc:
+                    refused = exc
+                counters["refused_entries_checked"] += 1
+                if refused is None:
+                    counters["refused_entries_accepted_by_the_library"] += 1
+                compare(a, entry, where, viol, 1 if outer else 0, "Prefused")
+                if refused is not None:
+                    try:
+                        a.sample_posterior(6, sampler="importance")
+                    except Exception as exc:  # noqa: BLE001
+                        viol.append({"mech": "C19/instance-unusable-after-refused-entry", "detail": f"{where}: {type(exc).__name__}: {str(exc)[:200]}"})
+            compare(a, top, where + " [after all contexts]", viol, -1, "all")
+
+
 def run_case(case):
     from collections import Counter
 
@@ -289,6 +336,7 @@ def run_case(case):
         a0 = Aspire(log_likelihood=p0.log_likelihood, log_prior=p0.log_prior, dims=1, parameters=list(t.parameters), prior_bounds=t.prior_bounds, flow_backend="avnp", xp=xp, family="gauss", loc=[0.5], scale=[2.0], fixed=True)
         a0.fit(data)
         a0.sample_posterior(8, sampler="importance", checkpoint_path=files["seed"])
+        refused_entries(g, counters, viol, t, data, files)
         for h in case["hists"]:
             before = len(viol)
             if run_history(h, g, counters, viol, t, data, files):
